@@ -68,7 +68,15 @@ def make_case(rng):
             cands = [(k, a) for syn in c12.ALIASES[kind] for k in syn if k in sub for a in syn if a != k]
             if cands and faulty:
                 k, a = rng.choice(cands)
-                sub[a] = copy.deepcopy(sub[k])
+                syn = [sy for sy in c12.ALIASES[kind] if k in sy][0]
+                others = [x for x in syn if x not in (k, a)]
+                if others and rng.random() < 0.5:
+                    # two aliases of the field, the key it was given under not among them
+                    val = sub.pop(k)
+                    sub[a] = val
+                    sub[rng.choice(others)] = copy.deepcopy(val)
+                else:
+                    sub[a] = copy.deepcopy(sub[k])
             else:
                 case["faulty"] = False
         elif cls == "missing":
